@@ -178,6 +178,7 @@ unsigned MessageBase::decode_group(GroupBase *grpbase, const unsigned short fnum
 
 	for (bool ok(true); ok && s_offset < fsize; )
 	{
+		const unsigned start_offset(s_offset);
 		unique_ptr<MessageBase> grp(grpbase->create_group(false)); // shallow create
 
 		for (unsigned pos(0); s_offset < fsize && (result = extract_element(dptr + s_offset, fsize - s_offset, tag, val));)
@@ -202,6 +203,9 @@ unsigned MessageBase::decode_group(GroupBase *grpbase, const unsigned short fnum
 			if (grp->_fp.is_group(tv, itr) && has_group_count(bf))
 				s_offset = grp->decode_group(grpbase, tv, from, s_offset, ignore);
 		}
+
+		if (s_offset == start_offset)	// nothing consumed: the remainder holds no further element
+			break;
 
 		const unsigned short missing(grp->_fp.find_missing());
 		if (missing)
